@@ -1,6 +1,6 @@
 (** Case language of the C16 correspondence check. *)
 From Coq Require Import NArith List String Bool.
-From CSS Require Import Lib.Cases Model.Marshal.
+From CSS Require Import Lib.Cases Model.Marshal Model.MarshalOps.
 Import ListNotations.
 Open Scope N_scope.
 
@@ -47,7 +47,42 @@ Inductive case : Type :=
 | CYamlDoc (entries : list (string * (bool * string))) (back : obs (list reg))
 (* documents unmarshalled one after another into ONE variable that first held [init]:
    after each call (succeeded?, contents of the variable); [None] = the call panicked *)
-| CSeq (init : list reg) (docs : list doc) (after : list (option (list reg * bool))).
+| CSeq (init : list reg) (docs : list doc) (after : list (option (list reg * bool)))
+(* a history of operations (Unmarshal, Sort, Marshal, Find, FlagRegisters.Set without a
+   document) on ONE variable that first held [init]: after each call the contents of the
+   variable and what the call showed; [None] = the call panicked *)
+| COps (init : list reg) (ops : list op) (after : list (option (list reg * shown))).
+
+Definition yentries_same (a b : list (string * (bool * string))) : bool :=
+  Nat.eqb (List.length a) (List.length b) &&
+  forallb (fun x => existsb (yentry_eqb x) b) a && forallb (fun x => existsb (yentry_eqb x) a) b.
+
+Definition shown_eqb (o m : shown) : bool :=
+  match o, m with
+  | SCall a, SCall b => Bool.eqb a b
+  | SNone, SNone => true
+  | SJson (ROk a), SJson (ROk b) => list_eqb jentry_eqb a b
+  | SJson RErr, SJson RErr => true
+  (* the document is a mapping: compare as sets of entries *)
+  | SYaml (ROk a), SYaml (ROk b) => yentries_same a b
+  | SYaml RErr, SYaml RErr => true
+  | SFound None, SFound None => true
+  | SFound (Some a), SFound (Some b) => reg_eqb a b
+  | _, _ => false
+  end.
+
+Definition ostep_eqb (o : option (list reg * shown)) (m : list reg * shown) : bool :=
+  match o with
+  | Some (l, s) => list_eqb reg_eqb l (fst m) && shown_eqb s (snd m)
+  | None => false
+  end.
+
+Fixpoint osteps_match (o : list (option (list reg * shown))) (m : list (list reg * shown)) : bool :=
+  match o, m with
+  | [], [] => true
+  | x :: o', y :: m' => ostep_eqb x y && osteps_match o' m'
+  | _, _ => false
+  end.
 
 Definition check (c : case) : bool :=
   match c with
@@ -56,7 +91,9 @@ Definition check (c : case) : bool :=
       | ROk b' => list_eqb N.eqb b b' && res_match reg_eqb back (value_from_bytes (fst r) b')
       | _ => false
       end
-  | CFromBytes id b back => res_match reg_eqb back (value_from_bytes id b)
+  (* ValueFromBytes as written (parser tables), and the same read off the registry *)
+  | CFromBytes id b back => res_match reg_eqb back (value_from_bytes_tables id b) &&
+                            res_match reg_eqb back (value_from_bytes id b)
   | CNewOwn r back => res_match reg_eqb back (new (fst r) (own_value r))
   | CNew id v back => res_match reg_eqb back (new id v)
   | CJSON regs back => res_match (list_eqb reg_eqb) back (json_roundtrip regs)
@@ -79,6 +116,11 @@ Definition check (c : case) : bool :=
   | CSeq init docs after =>
       match unmarshal_seq init docs with
       | Some m => steps_match after m
+      | None => false
+      end
+  | COps init ops after =>
+      match run init ops with
+      | Some m => osteps_match after m
       | None => false
       end
   end.
